@@ -45,11 +45,24 @@ def judge(ref, t, res):
     a = res.get('applied', {})
     if 'err' in a: out.append(('nbdime-apply-raises:' + a['err'], {'msg': a.get('msg')}))
     elif not eq(a['ok'], merged): out.append(('nbdime-apply-differs-from-merged', {'applied': a['ok'], 'merged': merged}))
+    # a key-relative action ('clear') sitting on a sequence has no reading in the documented diff format (sequences have no
+    # `replace`); such decisions come from re-levelling (push_patch_decision keeps the action) -- own signature
+    def on_list(d):
+        try:
+            obj = t['base']
+            for k in c09_spec.split_path(t['base'], d.get('common_path') or [])[0]: obj = obj[k]
+            return isinstance(obj, list)
+        except Exception:
+            return False
+    clear_on_list = [d for d in decs if d.get('action') == 'clear' and on_list(d)]
     try:
         mine = c09_spec.apply_decisions(t['base'], decs)
-        if not eq(mine, merged): out.append(('independent-apply-differs-from-merged', {'applied': mine, 'merged': merged}))
+        if not eq(mine, merged):
+            if clear_on_list: out.append(('clear-decision-relevelled-onto-sequence', {'decision': clear_on_list[0]}))
+            else: out.append(('independent-apply-differs-from-merged', {'applied': mine, 'merged': merged}))
     except Exception as e:
-        out.append(('independent-apply-fails:' + type(e).__name__, {'msg': str(e)[:300]}))
+        if clear_on_list: out.append(('clear-decision-relevelled-onto-sequence', {'decision': clear_on_list[0], 'msg': str(e)[:200]}))
+        else: out.append(('independent-apply-fails:' + type(e).__name__, {'msg': str(e)[:300]}))
     # choose a side (mergetool)
     if cfg.get('merge_strategy') == 'mergetool':
         for side in ('local', 'remote'):
